@@ -125,7 +125,7 @@ func floatNaturalLogSum1[T constraints.Float](e *Evaluator, arguments string) (a
 	if err != nil {
 		return nil, err
 	}
-	return xmath.Log(value + 1), nil
+	return xmath.Log1p(value), nil
 }
 
 func floatRound[T constraints.Float](e *Evaluator, arguments string) (any, error) {
